@@ -26,13 +26,6 @@ theorem mapG_ok_map {α β γ} {f : α → G β} {g : β → γ} {h : α → γ}
     cases hr
     simp [hf x b hb, ih bs hbs]
 
-/-- the Rust name a declaration is printed under -/
-def AstType.rustName : AstType → String
-  | .struct s => s.name
-  | .union u => u.name
-  | .enum e => e.name
-  | .typedef td => td.alias.unwrapArray.asStr
-
 theorem emitImpl_name {a : Ast} {t : AstType} {i : Impl} (h : emitImpl a t = .ok i) : i.name = t.rustName := by
   cases t with
   | struct s =>
